@@ -70,14 +70,126 @@ func callsTo(fn, callee *ssa.Function) []*ssa.Call {
 	return out
 }
 
-// openingFounds: found(K) calls of atom reachable from the entry through
+// tokTest is a boolean value whose true outcome means "the current token has kind K". It is either a
+// call found(K) / is(K), or a comparison of the current token's Typ with the constant K (the form a
+// `switch p.token().Typ { case K: ... }` takes). consumes: the token is also consumed on that outcome
+// (found, or a comparison whose true edge leads straight into an advance of the token position).
+type tokTest struct {
+	cond     ssa.Value
+	kind     string // "" if not a constant
+	consumes bool
+	instr    ssa.Instruction
+}
+
+func (t tokTest) Pos() token.Pos      { return t.instr.Pos() }
+func (t tokTest) Block() *ssa.BasicBlock { return t.instr.Block() }
+
+// isCurrentTokenTyp: v is <current token>.Typ, the current token being p.token() or p.tokens[p.tkpos].
+func (p *parserFns) isCurrentTokenTyp(v ssa.Value) bool {
+	b, ok := fieldOf(v, "Typ")
+	if !ok {
+		return false
+	}
+	if call, isCall := b.(*ssa.Call); isCall {
+		return p.tokenFn != nil && ir.Static(call) == p.tokenFn
+	}
+	if ld, isLd := b.(*ssa.UnOp); isLd && ld.Op == token.MUL {
+		if ia, isIA := ld.X.(*ssa.IndexAddr); isIA {
+			_, f1, ok1 := ir.FieldLoad(ia.X)
+			_, f2, ok2 := ir.FieldLoad(ia.Index)
+			return ok1 && ok2 && f1 == "tokens" && f2 == "tkpos"
+		}
+	}
+	return false
+}
+
+// advancesFirst: the first thing block b does to the parser state is tkpos = tkpos + 1 (no call and
+// no other store to tkpos before it).
+func (p *parserFns) advancesFirst(b *ssa.BasicBlock) bool {
+	for _, in := range b.Instrs {
+		switch x := in.(type) {
+		case *ssa.Store:
+			if _, fld, isF := ir.FieldAddr(x.Addr); isF && fld == "tkpos" {
+				bo, isBo := x.Val.(*ssa.BinOp)
+				if !isBo || bo.Op != token.ADD {
+					return false
+				}
+				one, isOne := ir.ConstInt(bo.Y)
+				_, f, isL := ir.FieldLoad(bo.X)
+				return isOne && one == 1 && isL && f == "tkpos"
+			}
+		case ssa.CallInstruction:
+			if _, isB := x.Common().Value.(*ssa.Builtin); isB {
+				continue
+			}
+			if f := ir.Static(x); f != nil && (f == p.tokenFn || f == p.eof) {
+				continue // reads the cursor only
+			}
+			return false
+		}
+	}
+	return false
+}
+
+// tests lists the token-kind tests of fn.
+func (p *parserFns) tests(fn *ssa.Function) []tokTest {
+	var out []tokTest
+	for _, call := range ir.Calls(fn) {
+		cv, ok := call.(*ssa.Call)
+		if !ok {
+			continue
+		}
+		f := ir.Static(cv)
+		if f == nil || (f != p.found && f != p.is) {
+			continue
+		}
+		k, _ := kindArg(cv)
+		out = append(out, tokTest{cond: cv, kind: k, consumes: f == p.found, instr: cv})
+	}
+	ir.Instrs(fn, func(in ssa.Instruction) {
+		bo, ok := in.(*ssa.BinOp)
+		if !ok || bo.Op != token.EQL {
+			return
+		}
+		x, y := bo.X, bo.Y
+		if _, isC := x.(*ssa.Const); isC {
+			x, y = y, x
+		}
+		if !p.isCurrentTokenTyp(x) {
+			return
+		}
+		k, _ := ir.ConstString(y)
+		edges := ir.EdgesWhere(fn, bo, true)
+		consumes := len(edges) > 0
+		for _, e := range edges {
+			if !p.advancesFirst(e.To) {
+				consumes = false
+			}
+		}
+		out = append(out, tokTest{cond: bo, kind: k, consumes: consumes, instr: bo})
+	})
+	return out
+}
+
+// consumers: the tests of fn that consume the token on their true outcome.
+func (p *parserFns) consumers(fn *ssa.Function) []tokTest {
+	var out []tokTest
+	for _, t := range p.tests(fn) {
+		if t.consumes {
+			out = append(out, t)
+		}
+	}
+	return out
+}
+
+// openingFounds: the consuming kind tests of atom reachable from the entry through
 // false edges only.
-func openingFounds(p *parserFns) []*ssa.Call {
+func openingFounds(p *parserFns) []tokTest {
 	fn := p.atom
 	blockedE := map[ir.Edge]bool{}
-	founds := callsTo(fn, p.found)
+	founds := p.consumers(fn)
 	for _, f := range founds {
-		for _, e := range ir.EdgesWhere(fn, f, true) {
+		for _, e := range ir.EdgesWhere(fn, f.cond, true) {
 			blockedE[ir.Edge{From: e.From, To: e.To}] = true
 		}
 	}
@@ -87,7 +199,7 @@ func openingFounds(p *parserFns) []*ssa.Call {
 		}
 	}
 	r := ir.Reach(fn.Blocks[0], nil, blockedE)
-	var out []*ssa.Call
+	var out []tokTest
 	for _, f := range founds {
 		if r[f.Block()] {
 			out = append(out, f)
@@ -106,11 +218,11 @@ func caseKinds(p *parserFns, b *ssa.BasicBlock) (kinds []string, ok bool) {
 	blockedE := map[ir.Edge]bool{}
 	set := map[string]bool{}
 	for _, f := range openingFounds(p) {
-		for _, e := range ir.EdgesWhere(fn, f, true) {
+		for _, e := range ir.EdgesWhere(fn, f.cond, true) {
 			if e.To == b || ir.ReachVia(e.From, e.To, nil, nil)[b] {
 				blockedE[ir.Edge{From: e.From, To: e.To}] = true
-				if k, isK := kindArg(f); isK {
-					set[k] = true
+				if f.kind != "" {
+					set[f.kind] = true
 				} else {
 					set["?"] = true
 				}
@@ -160,24 +272,31 @@ func par1(c *Ctx) {
 	}
 	opening := map[string]bool{}
 	for _, f := range openingFounds(p) {
-		if k, ok := kindArg(f); ok {
-			opening[k] = true
+		if f.kind != "" {
+			opening[f.kind] = true
 		} else {
 			c.Undecided(Q(p.atom)+":case-kind", f.Pos(), "non-constant token kind")
 		}
 	}
 	can := map[string]bool{}
-	for _, call := range callsTo(p.canAtom, p.is) {
-		k, ok := kindArg(call)
+	canTests := p.tests(p.canAtom)
+	for _, t := range canTests {
+		k, ok := t.kind, t.kind != ""
 		if !ok {
 			// table-driven: the kind is the ranged element of a read-only package-level table
-			ks, okT := tableKinds(c, call.Call.Args[len(call.Call.Args)-1])
+			var arg ssa.Value
+			if call, isCall := t.cond.(*ssa.Call); isCall {
+				arg = call.Call.Args[len(call.Call.Args)-1]
+			} else if bo, isBo := t.cond.(*ssa.BinOp); isBo {
+				arg = bo.Y
+			}
+			ks, okT := tableKinds(c, arg)
 			if !okT {
-				c.Undecided(Q(p.canAtom)+":kind", call.Pos(), "non-constant token kind")
+				c.Undecided(Q(p.canAtom)+":kind", t.Pos(), "non-constant token kind")
 				continue
 			}
 			good := false
-			for _, e := range ir.EdgesWhere(p.canAtom, call, true) {
+			for _, e := range ir.EdgesWhere(p.canAtom, t.cond, true) {
 				if allPathsReturnConst(e.To, true) {
 					good = true
 				}
@@ -191,7 +310,7 @@ func par1(c *Ctx) {
 		}
 		// the true edge must return true
 		good := false
-		for _, e := range ir.EdgesWhere(p.canAtom, call, true) {
+		for _, e := range ir.EdgesWhere(p.canAtom, t.cond, true) {
 			if allPathsReturnConst(e.To, true) {
 				good = true
 			}
@@ -200,14 +319,24 @@ func par1(c *Ctx) {
 			can[k] = true
 		}
 	}
-	// canAtom returns true nowhere else
+	// canAtom returns true nowhere else: with the true edges of the tests cut, no `return true` is reachable
+	cutTests := map[ir.Edge]bool{}
+	for _, t := range canTests {
+		for _, e := range ir.EdgesWhere(p.canAtom, t.cond, true) {
+			cutTests[ir.Edge{From: e.From, To: e.To}] = true
+		}
+	}
+	reachNoTest := ir.Reach(p.canAtom.Blocks[0], nil, cutTests)
 	for _, r := range ir.ReturnPoints(p.canAtom) {
 		if v, isC := ir.ConstBool(r.Results[0]); isC && v {
 			dom := false
-			for _, call := range callsTo(p.canAtom, p.is) {
-				if r.Holds(call, true) {
+			for _, t := range canTests {
+				if r.Holds(t.cond, true) {
 					dom = true
 				}
+			}
+			if !dom && !reachNoTest[r.At] {
+				dom = true
 			}
 			if !dom {
 				can["<unconditional>"] = true
@@ -236,18 +365,21 @@ func par1(c *Ctx) {
 	// all kinds consumed somewhere
 	consumed := map[string]bool{}
 	for _, fn := range c.pkgFuncsDeep("internal/parser") {
-		for _, callee := range []*ssa.Function{p.found, p.expect} {
-			for _, call := range callsTo(fn, callee) {
-				if k, ok := kindArg(call); ok {
-					consumed[k] = true
-				}
+		for _, call := range callsTo(fn, p.expect) {
+			if k, ok := kindArg(call); ok {
+				consumed[k] = true
+			}
+		}
+		for _, t := range p.consumers(fn) {
+			if t.kind != "" {
+				consumed[t.kind] = true
 			}
 		}
 	}
 	// the `=<text>` annotation is consumed only directly after a short or long option
 	for _, fn := range c.pkgFuncsDeep("internal/parser") {
-		for _, call := range callsTo(fn, p.found) {
-			if k, _ := kindArg(call); k != "OptValue" {
+		for _, call := range p.consumers(fn) {
+			if call.kind != "OptValue" {
 				continue
 			}
 			good := fn == p.atom && inCaseOf(p, call.Block(), "ShortOpt", "LongOpt")
@@ -431,8 +563,8 @@ func par2(c *Ctx) {
 	// (a) every normal return passes a found-true edge (or an expect, which consumes or panics)
 	blockedE := map[ir.Edge]bool{}
 	blockedB := map[*ssa.BasicBlock]bool{}
-	for _, f := range callsTo(fn, p.found) {
-		for _, e := range ir.EdgesWhere(fn, f, true) {
+	for _, f := range p.consumers(fn) {
+		for _, e := range ir.EdgesWhere(fn, f.cond, true) {
 			blockedE[ir.Edge{From: e.From, To: e.To}] = true
 		}
 	}
@@ -541,7 +673,7 @@ func par2(c *Ctx) {
 					}
 					isOpening := false
 					for _, of := range openingFounds(p) {
-						if call == ssa.CallInstruction(of) {
+						if oc, isCall := of.cond.(*ssa.Call); isCall && call == ssa.CallInstruction(oc) {
 							isOpening = true
 						}
 					}
@@ -833,10 +965,10 @@ func par4(c *Ctx) {
 		c.Undecided("anchor:parser", token.NoPos, "parser functions not found")
 		return
 	}
-	var dd *ssa.Call
+	var dd ssa.Value
 	for _, f := range openingFounds(p) {
-		if k, _ := kindArg(f); k == "DblDash" {
-			dd = f
+		if f.kind == "DblDash" {
+			dd = f.cond
 		}
 	}
 	// stores to rejectOptions anywhere in the package
@@ -1262,10 +1394,10 @@ func par6(c *Ctx) {
 	}
 	fn := p.atom
 	c.Mark(fn)
-	founds := map[string]*ssa.Call{}
-	for _, f := range callsTo(fn, p.found) {
-		if k, ok := kindArg(f); ok {
-			founds[k] = f
+	founds := map[string]ssa.Value{}
+	for _, f := range p.consumers(fn) {
+		if f.kind != "" {
+			founds[f.kind] = f.cond
 		}
 	}
 	edges := c.shortcutEdges(fn)
@@ -1554,8 +1686,14 @@ func par7(c *Ctx) {
 	for _, cv := range callsTo(p.atom, p.seq) {
 		n++
 		dom := false
-		for _, f := range callsTo(p.atom, p.found) {
-			if ir.HoldsAt(f, true, cv.Block()) {
+		for _, f := range p.consumers(p.atom) {
+			if ir.HoldsAt(f.cond, true, cv.Block()) {
+				dom = true
+			}
+		}
+		if !dom {
+			// a case reached from several kind tests (`case A, B:`): every way in consumed a token
+			if ks, okK := caseKinds(p, cv.Block()); okK && len(ks) > 0 {
 				dom = true
 			}
 		}
